@@ -192,3 +192,14 @@ func (v *VerifJobController) VerifDrainRequests() []apis.Request {
 	}
 	return out
 }
+
+// VerifDeleteJob is the informer's delete handler for jobs.
+func (v *VerifJobController) VerifDeleteJob(job *batch.Job) { v.cc.deleteJob(job) }
+
+// VerifResetCache gives the controller an empty job cache, as after a restart
+// of the controller process (listers are the harness's indexers and are reset
+// by the harness).  Requests still queued are dropped.
+func (v *VerifJobController) VerifResetCache() {
+	v.cc.cache = jobcache.New()
+	v.VerifDrainRequests()
+}
